@@ -113,7 +113,7 @@ def markStringLength (m : Mark) : Nat := m.name.length + 1 + (if (m.name.length 
 
 /-- the MARK chunk of aiff_write_header (cue points present, no instrument) -/
 def writeMarks (ms : List Mark) : List Byte :=
-  mk "MARK" ++ be4 (2 + ms.length * 6 + (ms.map markStringLength).foldl (· + ·) 0) ++ be2 ms.length ++ ms.flatMap serMark
+  mk "MARK" ++ be4 (2 + ms.length * 6 + (ms.map markStringLength).sum) ++ be2 ms.length ++ ms.flatMap serMark
 
 /-- one marker of the MARK reader: id, position, pascal string (an even length byte means one more byte follows) -/
 def parseMarks : Nat → List Byte → List Mark
